@@ -139,7 +139,7 @@ def gen(seed: int, tier: str) -> dict[str, Any]:
         retable_at = rng.randrange(1, len(tgs))
         for a in rng.sample(sorted(pool), rng.randint(1, len(pool))):
             table2[str(a)] = rng.choice(HOT) if rng.random() < 0.6 else rng.choice(DPTS)
-    return {"seed": seed, "tier": "S", "config": {"batch": 1}, "devices": devs, "table": table, "ops": tgs,
+    return {"seed": seed, "tier": "S", "config": {"batch": 1, "shadow": rng.random() < 0.2}, "devices": devs, "table": table, "ops": tgs,
             "table2": table2, "retable_at": retable_at}
 
 
@@ -195,6 +195,21 @@ def _one(plan, with_table: bool):
             xknx.devices.async_add(devobjs[-1])
         if with_table:
             set_table(table)
+        xknx2 = None
+        if plan["config"].get("shadow"):
+            # a second XKNX object of the same process whose project gives the same addresses other types; every telegram
+            # passes through its queue first
+            xknx2, _stub2, _q2 = make_xknx(R)
+            vals = [_spec(v) for v in table.values()]
+            if vals:
+                other = {GroupAddress(a): vals[(k + 1) % len(vals)] for k, a in enumerate(table)}
+                other.update({GroupAddress(a): "5.010" for a in POOL if a not in table})
+                try:
+                    xknx2.group_address_dpt.set(other)
+                except Exception:  # pylint: disable=broad-except
+                    pass
+            await xknx2.telegram_queue.start()
+            R.extra_faults["second_xknx_object_with_other_types_for_the_same_addresses"] += 1
         xknx.telegram_queue.register_telegram_received_cb(sentinel, match_for_outgoing=True)
         await xknx.start()
         for oi, op in enumerate(plan["ops"]):
@@ -207,6 +222,10 @@ def _one(plan, with_table: bool):
                     set_table(table2)
             data = DPTBinary(op["data"]) if op["kind"] == "bin" else DPTArray(tuple(op["data"]))
             payload = GroupValueWrite(data) if op["apci"] == "write" else GroupValueResponse(data)
+            if xknx2 is not None:
+                xknx2.telegrams.put_nowait(Telegram(destination_address=GroupAddress(op["addr"]), payload=payload,
+                                                    direction=TelegramDirection.INCOMING))
+                await xknx2.telegrams.join()
             xknx.telegrams.put_nowait(Telegram(
                 destination_address=GroupAddress(op["addr"]), payload=payload,
                 direction=TelegramDirection.OUTGOING if op["dir"] == "out" else TelegramDirection.INCOMING))
@@ -214,6 +233,8 @@ def _one(plan, with_table: bool):
             trace.append(snapshot())
         await asyncio.sleep(0.1)
         trace.append(snapshot())
+        if xknx2 is not None:
+            await xknx2.telegram_queue.stop()
         await xknx.stop()
 
     R.execute(main())
